@@ -45,6 +45,12 @@ usage:
 			return nil, fmt.Errorf("duplicated: %s", s[0])
 		}
 		seen[s[0]] = struct{}{}
+		if len(s) != 2 {
+			switch s[0] {
+			case "from", "table", "to":
+				return nil, fmt.Errorf("missing value: %s", s[0])
+			}
+		}
 		switch s[0] {
 		case "from":
 			fromVer = internal.UnquoteAll(s[1])
